@@ -263,13 +263,20 @@ func GenComment(t *rapid.T, p *Profile, pools *Pools, allowTags bool) *m.Comment
 	if p.off("text.nonascii") || p.off("text.nonbmp") {
 		texts = []string{"note", "some text", "x y z"}
 	}
+	if !p.off("comment.spaced-colon") {
+		texts = append(texts, "lunch : pizza") // a colon that is attached to no word makes no tag
+	}
 	vals := tagVals
 	if p.off("text.nonascii") || p.off("text.nonbmp") {
 		vals = []string{"", "v", "two words", "2024-01-02", "x1"}
 	}
 	for i := 0; i < n; i++ {
 		if allowTags && rapid.Bool().Draw(t, "istag") {
-			c.Items = append(c.Items, m.CItem{Tag: true, Name: rapid.SampledFrom(pools.TagNames).Draw(t, "tn"), Value: rapid.SampledFrom(vals).Draw(t, "tv")})
+			it := m.CItem{Tag: true, Name: rapid.SampledFrom(pools.TagNames).Draw(t, "tn"), Value: rapid.SampledFrom(vals).Draw(t, "tv")}
+			if !p.off("tag.text-before") && rapid.IntRange(0, 4).Draw(t, "tagpre") == 0 {
+				it.Pre = rapid.SampledFrom([]string{"paid by card ", "see ", "x "}).Draw(t, "tagprev")
+			}
+			c.Items = append(c.Items, it)
 		} else {
 			c.Items = append(c.Items, m.CItem{Text: rapid.SampledFrom(texts).Draw(t, "ct")})
 		}
